@@ -37,6 +37,7 @@ def step (p : Lcd.Ppu) (w : List String) : Lcd.Ppu × String :=
       | some n => apply p (.wLYC n)
       | none => (p, "bad-op")
   | ["scx", _] => apply p (.wLYC p.lyc)      -- SCX is not part of the timing model: nothing changes
+  | ["sprites", _] => apply p (.wLYC p.lyc)  -- nor are the contents of OAM
   | ["ly", v] => match byteArg v with
       | some n => apply p (.wLY n)
       | none => (p, "bad-op")
